@@ -353,6 +353,29 @@ def _thread(F, nd, call_bi, boff, nblocks, off, dest, cont):
         return
     T = blocks[cont]
     tt = T["term"]
+    if tt["k"] == "goto" and 1 <= len(T["stmts"]) <= 2 and blocks[tt["to"]]["term"]["k"] == "switch":
+        # the continuation first hands the result on (`x = move dest`, the return of a closure the helper was called in) and
+        # the block behind it switches on that: read both blocks as one continuation on the forwarded local
+        from .cfg import term_succs as _ts
+        cur = dest["l"]
+        for s_ in T["stmts"]:
+            u_ = s_["rv"].get("use") if s_["k"] == "assign" else None
+            src_ = (u_.get("move") or u_.get("copy")) if isinstance(u_, dict) else None
+            if not src_ or src_ != {"l": cur, "proj": []} or s_["place"]["proj"]:
+                return
+            cur = s_["place"]["l"]
+        T2i = tt["to"]
+        if sum(1 for b_ in blocks for _l, t_ in _ts(b_["term"]) if t_ == T2i) != 1:
+            return
+        T2 = blocks[T2i]
+        if any(s_["k"] in ("assign", "setdiscr") and s_["place"]["l"] in (cur, dest["l"]) for s_ in T2["stmts"]):
+            return
+        chain_ = copy.deepcopy(T["stmts"])
+        T = dict(T2)
+        tt = T["term"]
+        dest = {"l": cur, "proj": []}
+    else:
+        chain_ = []
     if tt["k"] != "switch":
         return
     # the continuation has no other predecessor
@@ -416,6 +439,7 @@ def _thread(F, nd, call_bi, boff, nblocks, off, dest, cont):
     for (p_, val, chain) in found:
         clones = [copy.deepcopy(blocks[c]) for c in chain]
         t2 = copy.deepcopy(T)
+        t2["stmts"] = copy.deepcopy(chain_) + t2["stmts"]
         t2["term"] = {"k": "goto", "to": arm_for(val), "threaded": val}
         base = len(blocks)
         for i, c in enumerate(clones):
